@@ -25,7 +25,9 @@ const WORKER_STOPS: &[&str] = &["worker.recv", "store.present", "wu.space", "kw.
 const SWEEPER_STOPS: &[&str] = &["sweep.begin", "sweep.entry", "kw.remove", "wu.sub", "store.remove", "sweep.end"];
 const CONSUMER_STOPS: &[&str] = &["consumer.recv"];
 const CLIENT_STOPS: &[&str] = &["client.idle", "store.present", "id.next", "cmd.send", "delete.mark", "store.get", "pool.add", "wu.read",
-    "upsert.update", "upsert.weight_of", "ttl.put", "ttl.delete", "ttl.update.remove", "ttl.update.insert"];
+    "upsert.update", "upsert.weight_of", "ttl.put", "ttl.delete", "ttl.update.remove", "ttl.update.insert",
+    "shutdown.cas", "buf.send_shutdown", "shutdown.consumer_flag", "shutdown.ticker_flag", "shutdown.store_clear", "shutdown.kw_clear",
+    "shutdown.wu_zero", "shutdown.af_clear", "shutdown.stats_clear", "shutdown.ttl_clear"];
 
 #[derive(Clone, Debug)]
 enum Req {
@@ -34,6 +36,8 @@ enum Req {
     Get(u64),
     Weight,
     Upsert(u64, Option<u64>, Option<i64>, Option<u128>, bool),
+    GetRef(u64),
+    Shutdown,
 }
 
 fn opt<T: std::fmt::Display>(value: &Option<T>) -> String { value.as_ref().map(|v| v.to_string()).unwrap_or("-".to_string()) }
@@ -46,11 +50,13 @@ impl Req {
             Req::Get(k) => format!("get {}", k),
             Req::Weight => "weight".to_string(),
             Req::Upsert(k, v, w, t, rm) => format!("upsert {} {} {} {} {}", k, opt(v), opt(w), opt(t), *rm as u8),
+            Req::GetRef(k) => format!("getref {}", k),
+            Req::Shutdown => "shutdown".to_string(),
         }
     }
 }
 
-enum CallOut { Send(Result<Arc<CommandAcknowledgement>, String>), Value(Option<u64>), Weight(i64) }
+enum CallOut { Send(Result<Arc<CommandAcknowledgement>, String>), Value(Option<u64>), Weight(i64), Unit }
 
 struct Slot {
     job: Mutex<Option<Box<dyn FnOnce(&Cache) -> CallOut + Send>>>,
@@ -66,8 +72,12 @@ struct World {
     threads: Vec<std::thread::JoinHandle<()>>,
     acks: Vec<Arc<CommandAcknowledgement>>,
     pending_job: Vec<bool>,          // a request was issued and its first action has not run yet
+    ref_readers: Vec<(String, usize)>,   // (role, store shard) of `get_ref` guards currently kept across `pool.add`
+    current_key: Vec<Option<u64>>,   // key of the request each client is executing
+    is_getref: Vec<bool>,
     deferred_pool: Vec<Option<String>>,
     buf_chan_cap: usize,
+    extended: bool,
     seeds: [u64; 4],
     sample_size: usize,
     ttl_entry: i64,
@@ -76,7 +86,7 @@ struct World {
 fn ns(time: &SystemTime) -> u128 { time.duration_since(UNIX_EPOCH).map(|d| d.as_nanos()).unwrap_or(0) }
 
 impl World {
-    fn new(cfg: Cfg) -> Result<World, String> {
+    fn new(cfg: Cfg, extended: bool) -> Result<World, String> {
         verif::reset(true, true);
         verif::set_default_stops("worker", WORKER_STOPS);
         verif::set_default_stops("sweeper", SWEEPER_STOPS);
@@ -119,14 +129,15 @@ impl World {
         }
         let seeds = cache.verif_snapshot().sketch.seeds;
         let clients = cfg.clients;
-        Ok(World { cfg, cache, clock, slots, threads, acks: Vec::new(), pending_job: vec![false; clients], deferred_pool: vec![None; clients],
-                   buf_chan_cap, seeds, sample_size, ttl_entry: ttl_entry as i64 })
+        Ok(World { cfg, cache, clock, slots, threads, acks: Vec::new(), pending_job: vec![false; clients], ref_readers: Vec::new(), current_key: vec![None; clients], is_getref: vec![false; clients], deferred_pool: vec![None; clients],
+                   buf_chan_cap, extended, seeds, sample_size, ttl_entry: ttl_entry as i64 })
     }
 
     fn cfg_line(&self) -> String {
         format!("BC max={} shards={} cmdcap={} pool={} buf={} counters={} sample={} bufchan={} ttlentry={} hash={} wbase={} wmod={} now={} seeds={},{},{},{} clients={}",
                 self.cfg.max, self.cfg.shards, self.cfg.cmdcap, self.cfg.pool, self.cfg.buf, self.cfg.counters, self.sample_size, self.buf_chan_cap, self.ttl_entry,
                 self.cfg.hash, self.cfg.wbase, self.cfg.wmod, self.cfg.now, self.seeds[0], self.seeds[1], self.seeds[2], self.seeds[3], self.cfg.clients)
+            + &(if self.extended { format!(" sshard={}", (0..8u64).map(|k| format!("{}:{}", k, self.cache.verif_store_shard_of(&k))).collect::<Vec<_>>().join(",")) } else { String::new() })
     }
 
     fn at(role: &str) -> String {
@@ -154,7 +165,24 @@ impl World {
             if need == "wu" || need.starts_with("ttl:") { if Self::held_by_other(role, need) { return false; } }
             if need == "cmdq.room" { return !(verif::view("worker").map(|w| !w.finished).unwrap_or(false)) || self.cache.verif_command_queue_len() < self.cfg.cmdcap; }
             if need == "cmdq.item" || need == "cmdq.item_or_closed" { return self.cache.verif_command_queue_len() > 0; }
+            if need == "bufq.room" { return !(verif::view("consumer").map(|c| !c.finished).unwrap_or(false)) || self.cache.verif_buffer_queue_len() < self.buf_chan_cap; }
         }
+        // a `get_ref` guard kept across `pool.add` read-locks one store shard: writers of that shard wait.
+        // For client actions the key (hence the shard) is known; the worker's and the sweeper's store writes are simply not
+        // scheduled while any such guard is held (a restriction of the explored schedules, not of the model).
+        let readers: Vec<usize> = self.ref_readers.iter().filter(|(owner, _)| owner != role).map(|(_, shard)| *shard).collect();
+        if !readers.is_empty() {
+            match at {
+                "delete.mark" | "upsert.update" => {
+                    if let Some(key) = role[1..].parse::<usize>().ok().and_then(|c| self.current_key[c]) {
+                        if readers.contains(&self.cache.verif_store_shard_of(&key)) { return false; }
+                    }
+                }
+                "store.put" | "store.remove" | "shutdown.store_clear" => return false,
+                _ => {}
+            }
+        }
+        if at == "shutdown.ttl_clear" && verif::holds().iter().any(|(name, owner)| name.starts_with("ttl:") && owner != role) { return false; }
         match at {
             "consumer.recv" => self.cache.verif_buffer_queue_len() > 0,
             "client.idle" => role.starts_with('c') && self.pending_job[role[1..].parse::<usize>().unwrap_or(0)],
@@ -198,12 +226,15 @@ impl World {
     }
 
     fn issue(&mut self, client: usize, req: &Req) {
+        let req_copy = req.clone();
         let req = req.clone();
         *self.slots[client].job.lock().unwrap() = Some(Box::new(move |cache: &Cache| match req {
             Req::PutW(k, v, w, None) => CallOut::Send(cache.put_with_weight(k, v, w).map_err(|e| e.to_string())),
             Req::PutW(k, v, w, Some(t)) => CallOut::Send(cache.put_with_weight_and_ttl(k, v, w, duration_of(t)).map_err(|e| e.to_string())),
             Req::Delete(k) => CallOut::Send(cache.delete(k).map_err(|e| e.to_string())),
             Req::Get(k) => CallOut::Value(cache.get(&k)),
+            Req::GetRef(k) => CallOut::Value(cache.get_ref(&k).map(|reference| reference.value().value())),
+            Req::Shutdown => { cache.shutdown(); CallOut::Unit }
             Req::Weight => CallOut::Weight(cache.total_weight_used()),
             Req::Upsert(k, v, w, t, rm) => {
                 let mut builder = PutOrUpdateRequestBuilder::new(k);
@@ -215,6 +246,8 @@ impl World {
             }
         }));
         self.pending_job[client] = true;
+        self.current_key[client] = match req_copy { Req::PutW(k, ..) | Req::Delete(k) | Req::Get(k) | Req::GetRef(k) | Req::Upsert(k, ..) => Some(k), _ => None };
+        self.is_getref[client] = matches!(req_copy, Req::GetRef(_));
     }
 
     /// the result of a call that has just completed on client `c`, rendered like the model's `Out`
@@ -230,6 +263,7 @@ impl World {
             }
             Ok(CallOut::Value(value)) => format!("value {}", opt(&value)),
             Ok(CallOut::Weight(weight)) => format!("weight {}", weight),
+            Ok(CallOut::Unit) => "none".to_string(),
         })
     }
 
@@ -285,6 +319,7 @@ fn oracle_of(taps: &[String], deferred_pool: &mut Option<String>, is_client: boo
 }
 
 pub fn run(seed: u64, out: &str, args: &[String]) -> bool {
+    let extended = args.iter().any(|a| a == "--ext");
     let cases: u64 = args.iter().position(|a| a == "--cases").and_then(|i| args.get(i + 1)).and_then(|s| s.parse().ok()).unwrap_or(10);
     let mut sink = Sink::new(out);
     for case in 0..cases {
@@ -297,7 +332,7 @@ pub fn run(seed: u64, out: &str, args: &[String]) -> bool {
             now: rng.pick(&[1_000u64 * 1_000_000_000, 1_000 * 1_000_000_000 + 999_999_999]), clients: rng.pick(&[2usize, 3]),
         };
         sink.both(&format!("# case conc seed={}", case_seed));
-        let mut world = match World::new(cfg.clone()) { Ok(world) => world, Err(why) => { sink.both(&format!("# engine-start-failed {}", why)); sink.flush(); return false; } };
+        let mut world = match World::new(cfg.clone(), extended) { Ok(world) => world, Err(why) => { sink.both(&format!("# engine-start-failed {}", why)); sink.flush(); return false; } };
         writeln!(sink.input, "{}", world.cfg_line()).unwrap();
         writeln!(sink.implementation, "R init | {} | {}", world.pcs(), world.snapshot()).unwrap();
         let keys = rng.pick(&[2u64, 3, 4]);
@@ -306,6 +341,7 @@ pub fn run(seed: u64, out: &str, args: &[String]) -> bool {
         let mut hang = None;
         let mut step = 0;
         let mut quiet_rounds = 0;
+        let shutdown_at: Option<u64> = if extended && rng.chance(35) { Some(length * (40 + rng.below(50)) / 100) } else { None };
         while hang.is_none() {
             let winding_down = step >= length;
             // candidate actions
@@ -338,7 +374,9 @@ pub fn run(seed: u64, out: &str, args: &[String]) -> bool {
                     next_value += 1;
                     let weight = if rng.chance(70) { 1 + rng.below(4) as i64 } else { rng.pick(&[1i64, max / 2, max - 1, max, max + 1]).max(1) };
                     let ttl = if rng.chance(40) { Some(rng.pick(&[1u128, 1_000_000_000, 2_000_000_000, 5_000_000_000])) } else { None };
-                    let req = match rng.below(10) {
+                    let shutdown_now = extended && shutdown_at == Some(step);
+                    let req = if shutdown_now { Req::Shutdown } else { match rng.below(if extended { 11 } else { 10 }) {
+                        10 => Req::GetRef(key),
                         0 | 1 | 2 => Req::PutW(key, next_value, weight, ttl),
                         3 => Req::Delete(key),
                         4 | 5 => Req::Get(key),
@@ -353,7 +391,7 @@ pub fn run(seed: u64, out: &str, args: &[String]) -> bool {
                             let value = if value.is_none() && explicit.is_none() && ttl2.is_none() && !remove { Some(next_value) } else { value };
                             Req::Upsert(key, value.or(Some(next_value)), explicit, ttl2, remove)
                         }
-                    };
+                    } };
                     world.issue(client, &req);
                     (format!("B issue {} {}", client, req.text()), vec![], None)
                 }
@@ -365,8 +403,20 @@ pub fn run(seed: u64, out: &str, args: &[String]) -> bool {
                 role => {
                     let is_client = role.starts_with('c') && role != "consumer";
                     if is_client { let c: usize = role[1..].parse().unwrap(); if World::at(role) == "client.idle" { world.pending_job[c] = false; } }
+                    let was_at = World::at(role);
                     match world.act(role) {
                         Ok(taps) => {
+                            if is_client {
+                                let c: usize = role[1..].parse().unwrap();
+                                if world.is_getref[c] {
+                                    if was_at == "store.get" && World::at(role) == "pool.add" {
+                                        let shard = world.cache.verif_store_shard_of(&world.current_key[c].unwrap_or(0));
+                                        world.ref_readers.push((role.to_string(), shard));
+                                    } else if was_at == "pool.add" {
+                                        world.ref_readers.retain(|(owner, _)| owner != role);
+                                    }
+                                }
+                            }
                             let name = if is_client { format!("client {}", &role[1..]) } else { role.to_string() };
                             (format!("B {}", name), taps, if is_client { Some(role[1..].parse().unwrap()) } else { None })
                         }
